@@ -28,6 +28,7 @@ import (
 	"github.com/itchyny/gojq"
 	"github.com/itchyny/gojq/cli"
 
+	"verifharness/c1516"
 	"verifharness/common"
 )
 
@@ -206,6 +207,7 @@ func main() {
 	inputsCorrespondence(ctx, r.Fork(3))
 	modeOracle(ctx, r.Fork(4))
 	argsOracle(ctx, r.Fork(5))
+	c1516.FlagsCorrespondence(ctx, r.Fork(7))
 	binaryOracle(ctx, r.Fork(6))
 
 	os.RemoveAll(tmpDir)
@@ -222,7 +224,7 @@ func streamCorrespondence(ctx *common.Ctx, r *common.Rand) {
 	orc := ctx.NewOracle("stream-cuts", "same cuts, model-free: emitted events must be the first n events of a reference tostream computed on the ordered document tree, n = number of value-completing tokens wholly before the cut (plus the one number a cut literal still denotes), then EOF at a document boundary / error inside a document; distinct = distinct (text, cut) pairs with at least one event or an error")
 	var lines, impl []string
 	distinct := 0
-	nDocs := ctx.N(220, 4000)
+	nDocs := ctx.N(1500, 20000)
 	for i := 0; i < nDocs; i++ {
 		docs := randDocs(r, 3, false)
 		text, spans := render(r, docs, r.Chance(1, 5))
@@ -323,7 +325,7 @@ func specStreams(ctx *common.Ctx, r *common.Rand) {
 	toC, fromC := compile("tostream"), compile("fromstream(.[])")
 	opts := common.DefaultGen
 	var tl, ti, fl, fi []string
-	for i := 0; i < ctx.N(500, 8000); i++ {
+	for i := 0; i < ctx.N(3000, 40000); i++ {
 		var evs []any
 		for d, nd := 0, r.Range(1, 3); d < nd; d++ {
 			v := common.RandValue(r, opts, 0)
@@ -522,7 +524,7 @@ func inputsCorrespondence(ctx *common.Ctx, r *common.Rand) {
 		raw, stream, slurp bool
 	}{{"d", false, false, false}, {"s", false, false, true}, {"R", true, false, false}, {"Rs", true, false, true}, {"S", false, true, false}, {"Ss", false, true, true}}
 	var lines, impl []string
-	for i := 0; i < ctx.N(700, 12000); i++ {
+	for i := 0; i < ctx.N(4000, 60000); i++ {
 		m := modes[r.Intn(len(modes))]
 		l := genLayout(r, true, true, "in")
 		if m.raw && r.Bool() {
@@ -622,7 +624,7 @@ func modeOracle(ctx *common.Ctx, r *common.Rand) {
 	count := func(kind string) { orc.Cases++; distinct++; orc.Distribution[kind]++ }
 
 	// ---- --stream through the command
-	for i := 0; i < ctx.N(120, 2500); i++ {
+	for i := 0; i < ctx.N(600, 10000); i++ {
 		docs := randDocs(r, 3, false)
 		text, spans := render(r, docs, false)
 		full := fullEvents(docs)
@@ -674,7 +676,7 @@ func modeOracle(ctx *common.Ctx, r *common.Rand) {
 	}
 
 	// ---- layouts: default / -s / -n
-	for i := 0; i < ctx.N(250, 5000); i++ {
+	for i := 0; i < ctx.N(1200, 20000); i++ {
 		l := genLayout(r, i%3 == 0, i%5 == 0, "lay")
 		items, nerr := l.sequence()
 		vals := onlyValues(items)
@@ -761,7 +763,7 @@ func modeOracle(ctx *common.Ctx, r *common.Rand) {
 	}
 
 	// ---- -R / -Rs
-	for i := 0; i < ctx.N(150, 3000); i++ {
+	for i := 0; i < ctx.N(600, 10000); i++ {
 		stdin := randText(r)
 		var fa []string
 		var texts []string
@@ -819,7 +821,7 @@ func argsOracle(ctx *common.Ctx, r *common.Rand) {
 		}
 		return vs[0]
 	}
-	for i := 0; i < ctx.N(300, 6000); i++ {
+	for i := 0; i < ctx.N(1500, 25000); i++ {
 		named := map[string]any{}
 		var flags []string
 		var order []string
@@ -935,7 +937,7 @@ func argsOracle(ctx *common.Ctx, r *common.Rand) {
 	// -f file = the file's text
 	queries := []string{".", ".[0]?", "[., 1]", "def f: . + 1; f?", ". as $x | [$x, $x]", "\"a\\(.)b\"", "# comment\n.", " . ", ".\n|\n[.]", "..", "[.[]?]",
 		"[limit(2; .[]?)]", "error(\"x\")", ".a.b?", "{a: .}", "1 +", "[", ". | ", "input", "[., input]", "\t.\n\n", "try error(\"x\") catch .", "\"\\u00e9\"", "reduce .[]? as $x (0; . + 1)"}
-	for i := 0; i < ctx.N(80, 1500); i++ {
+	for i := 0; i < ctx.N(400, 6000); i++ {
 		q := common.Pick(r, queries)
 		docs := randDocs(r, 3, false)
 		text, _ := render(r, docs, false)
@@ -994,7 +996,7 @@ func binaryOracle(ctx *common.Ctx, r *common.Rand) {
 		return o.String(), code
 	}
 	seen := map[string]bool{}
-	for i := 0; i < ctx.N(25, 300); i++ {
+	for i := 0; i < ctx.N(40, 400); i++ {
 		l := genLayout(r, i%3 == 0, false, "bin")
 		fa := l.fileArgs()
 		for _, base := range [][]string{{"-c", "."}, {"-c", "-s", "."}, {"-c", "-n", "[inputs]"}, {"-c", "--stream", "."}, {"-c", "-n", "input, [inputs]"}, {"-c", "-R", "."}, {"-c", "-Rs", "."}} {
